@@ -43,6 +43,10 @@ def histories(draw, tier):
     if key is not None and key[0][0] != "T" and draw(st.integers(0, 5)) == 0:
         # keys that refuse to be compared with anything but their own kind; or a FIRST key equal to everything
         key = [["SK", k[1]] for k in draw(st.lists(st.integers(0, 2).map(lambda n: ["i", n]), min_size=1, max_size=4))]
+        if draw(st.integers(0, 1)) == 0 and len(key) >= 2:
+            # ... among ordinary keys: comparing two DIFFERENT keys can fail then, inside a group poll as well as in
+            # an advance of the groupby (whoever asks again gets the same answer from both implementations)
+            key = [k if draw(st.integers(0, 1)) == 0 else ["i", k[1]] for k in key]
     elif key is not None and key[0][0] not in ("T", "SK") and draw(st.integers(0, 7)) == 0:
         key = [["E", 990 + i] if draw(st.integers(0, 2)) == 0 else k for i, k in enumerate(key)]
     mixed = [["i", 1], ["f", 1.0], ["b", True], ["i", 0], ["f", 0.0], ["b", False], ["i", 2], ["f", 2.0], ["F", 2, 1],
@@ -151,9 +155,11 @@ def check(case):
                 if got != want:
                     return ("group-item-differs", f"step {step} group {i} of {len(groups_a)}: "
                             f"async={got} itertools={want}")
-                if got[0] == "raise" and not (fault and fault[0] == "key"):
+                if got[0] == "raise" and fault and fault[0] != "key":
                     return None
-                # (a key function that failed for one item works again for the next: the group goes on)
+                # (a key function that failed for one item works again for the next: the group goes on; and so it
+                #  does after a poll in which comparing two keys failed - the group is asked again like its
+                #  itertools counterpart)
                 if i == len(groups_a) - 1 and got[0] == "item":
                     taken_from_current += 1
         return None
